@@ -291,25 +291,25 @@ def checkPreservationConway (ins outs : List Value) (fee : Int) (mint : Option M
                | none => .ok consumed).bind (fun input =>
                 .ok (valuesAreEqual input output))))
 
-/-! ## Byron `check_fees` (no redeem-only shortcut unless `onlyRedeem`) -/
+/-! ## Byron `check_fees` (fixed: the balance is checked before the redeem-only exemption from the minimum fee) -/
 
 def sumU64 (acc : Int) : List Int → Option Int
   | [] => some acc
   | a :: rest => if acc + a > U64_MAX then none else sumU64 (acc + a) rest
 
+/-- `onlyRedeem` = every input is a redeem-address UTxO -/
 def byronCheckFees (ins outs : List Int) (size summand multiplier : Int) (onlyRedeem : Bool) : Res :=
   match sumU64 0 ins with
   | none => .panic
   | some inputsBalance =>
-    if onlyRedeem then .ok
-    else
-      match sumU64 0 outs with
-      | none => .panic
-      | some outputsBalance =>
-        if inputsBalance - outputsBalance < 0 then .panic          -- `inputs_balance - outputs_balance` on `u64`
-        else if multiplier * size > U64_MAX then .panic
-        else if summand + multiplier * size > U64_MAX then .panic
-        else if inputsBalance - outputsBalance < summand + multiplier * size then .feesBelowMin
-        else .ok
+    match sumU64 0 outs with
+    | none => .panic
+    | some outputsBalance =>
+      if inputsBalance - outputsBalance < 0 then .feesBelowMin          -- `checked_sub(..).ok_or(FeesBelowMin)`
+      else if onlyRedeem then .ok
+      else if multiplier * size > U64_MAX then .panic
+      else if summand + multiplier * size > U64_MAX then .panic
+      else if inputsBalance - outputsBalance < summand + multiplier * size then .feesBelowMin
+      else .ok
 
 end PallasVerif.Value
